@@ -358,6 +358,8 @@ theorem step_sinv (cfg : Cfg) (s : St) (op : Op) (h : SInv s) : SInv (step cfg s
   | authorize user client scope redirect =>
     simp only [step]
     split
+    · exact h
+    split
     · rename_i s2 c hm
       have h1 := sinv_newGrant s (mkGrant cfg s user client scope redirect) (by simp [mkGrant]) h
       exact mint_sinv hm h1 (by simp) (fun sc hsc => by cases hsc)
